@@ -23,7 +23,7 @@ Template directives (see DESIGN.md 3.2/3.3):
   hint <where>:
       verus statements
   @*/
-  where <where> is one of: start | loop K start | loop K end | before `text` [#n] | after `text` [#n]
+  where <where> is one of: start | end | loop K before | loop K start | loop K end | before `text` [#n] | after `text` [#n]
 
 The body text of every function is copied verbatim; only the generic rules of rules.py touch it.
 Everything the extractor cannot place is a LostAnchor (exit 2 = undecided), never a violation.
@@ -477,7 +477,7 @@ def apply_hints(body, hints):
     ins = []  # (index, text)
     heads = None
     for where, text in hints:
-        m = re.match(r'loop\s+(\d+)\s+(start|end)$', where)
+        m = re.match(r'loop\s+(\d+)\s+(start|end|before)$', where)
         if where == 'start':
             ins.append((0, '\n' + text + '\n'))
         elif where == 'end':
@@ -488,8 +488,11 @@ def apply_hints(body, hints):
             k = int(m.group(1))
             if k > len(heads):
                 raise LostAnchor('hint anchor: loop %d missing' % k)
-            _, ob, cb = heads[k - 1]
-            ins.append((ob + 1, '\n' + text + '\n') if m.group(2) == 'start' else (cb, '\n' + text + '\n'))
+            kw, ob, cb = heads[k - 1]
+            if m.group(2) == 'before':
+                ins.append((kw, '\n' + text + '\n'))
+            else:
+                ins.append((ob + 1, '\n' + text + '\n') if m.group(2) == 'start' else (cb, '\n' + text + '\n'))
         else:
             m = re.match(r'(before|after)\s+`(.*)`(?:\s+#(\d+))?$', where, re.S)
             if not m:
